@@ -610,6 +610,50 @@ class Worker:
                     sig = {"cause": "other-object", "object": name, "call": call}
                     self.R.violation(sig, f"{call}({name}) raises {r}", {"version": self.version, "object": name, "call": call, "exception": r})
 
+    def dead_scenario_stage(self, count):
+        """objects that outlive their scenario (the store holds scenarios weakly): oracle only, no model"""
+        if self.scn is None:
+            return
+        import gc, warnings
+        from AoE2ScenarioParser.scenarios.aoe2_de_scenario import AoE2DEScenario
+        with contextlib.redirect_stdout(io.StringIO()):
+            scn2 = AoE2DEScenario.from_default()
+        tm = scn2.trigger_manager
+        u = scn2.unit_manager.add_unit(1, 4, 1.5, 1.5)
+        kept = []
+        with warnings.catch_warnings():
+            warnings.simplefilter("ignore")
+            for i in range(count):
+                t = tm.add_trigger("d%d" % i)
+                for kind in ("effect", "condition"):
+                    os_ = self.random_obj(kind, count, p_ill=0.0)
+                    lst = t.effects if kind == "effect" else t.conditions
+                    n0 = len(lst)
+                    st, o = common.outcome(self.make_obj, t, kind, os_)
+                    if st != "ok":
+                        del lst[n0:]
+                        continue
+                    s2, r = common.outcome(self.read_obj, kind, o)
+                    # the four recorded defects are judged by the modelled stages; keep them out of this one
+                    known_c = kind == "condition" and r[0] not in self.conditions.condition_names if s2 == "ok" else True
+                    if s2 == "ok" and self.in_domain_obj(kind, r[2]) and r[1] != "q" and r[0] != -1 and not known_c:
+                        kept.append((kind, os_, o))
+                    else:
+                        del lst[n0:]
+        del scn2
+        gc.collect()
+        targets = [("manager", None, tm), ("unit", None, u)] + [("trigger", None, t) for t in tm.triggers[:5]] + kept
+        for kind, os_, o in targets:
+            s, r = common.outcome(lambda: str(o))
+            self.R.case(key=("dead", kind, json.dumps(os_, default=str)), nontrivial=True, tags=("dead-scenario:" + kind,))
+            if s != "ok" or not isinstance(r, str):
+                sig = {"cause": "dead-scenario", "object": kind}
+                k = json.dumps(sig, sort_keys=True)
+                if k not in self.seen_sig:
+                    self.seen_sig.add(k)
+                    self.R.violation(sig, f"str({kind}) after its scenario was garbage-collected raises {r} ({os_})",
+                                     {"version": self.version, "dead_scenario": True, "kind": kind, "obj": os_, "exception": r})
+
     # -----------------------------------------------------------------------------------------------------------
     # generators
     def value_pool(self, kind, attr, n_trig):
@@ -752,6 +796,7 @@ class Worker:
             spec, tags = self.random_manager()
             self.manager_case(spec, tags=tuple(tags))
         self.other_objects()
+        self.dead_scenario_stage(self.budget(30, 200))
         # correspondence
         R = self.R
         if self.driver_path:
